@@ -40,14 +40,21 @@ const maxReaders = 5
 type op struct {
 	kind string // link unlink write ans closer drop closew
 	r    int
-	ak   byte // answer kind: n e v
-	k    int  // answer id / write payload
+	ak   byte  // answer kind: n e v
+	k    int   // answer id / write payload
+	cs   []int // writeh: the readers the writer's outbound hook closes inside the write
 }
 
 func (o op) line() string {
 	switch o.kind {
 	case "write":
 		return "write " + strconv.Itoa(o.k)
+	case "writeh":
+		l := "writeh " + strconv.Itoa(o.k)
+		for _, r := range o.cs {
+			l += " " + strconv.Itoa(r)
+		}
+		return l
 	case "ans", "pop":
 		if o.ak == 'n' {
 			return fmt.Sprintf("%s %d n", o.kind, o.r)
@@ -80,6 +87,15 @@ func parseOp(line string) (op, bool) {
 	case "write":
 		v, ok := num(1)
 		return op{kind: "write", k: v}, ok && len(f) == 2
+	case "writeh":
+		v, ok := num(1)
+		o := op{kind: "writeh", k: v}
+		for i := 2; i < len(f); i++ {
+			r, ok2 := num(i)
+			ok = ok && ok2 && r < maxReaders
+			o.cs = append(o.cs, r)
+		}
+		return o, ok
 	case "closew":
 		return op{kind: "closew"}, len(f) == 1
 	case "deliver":
@@ -187,11 +203,13 @@ type sim struct {
 	launching atomic.Pointer[popG]
 	flight    [][]*popG
 
-	mu     sync.Mutex
-	emits  []*packet.Packet // pushed into the pump during the current step (inbound hook)
-	delivP []*packet.Packet
-	delivR []int
-	spawn  int
+	mu       sync.Mutex
+	emits    []*packet.Packet // pushed into the pump during the current step (inbound hook)
+	delivP   []*packet.Packet
+	delivR   []int
+	spawn    int
+	shown    int   // calls of the writer's outbound hook during the current step
+	hookPlan []int // readers the writer's outbound hook closes (set for the duration of a `writeh` step)
 
 	streamFail string // first discrepancy between Receive()/Read() and the hooks
 	closeLost  int    // responses emitted by Close that never came out of Receive()
@@ -247,6 +265,17 @@ func newSim(n int) *sim {
 		s.mu.Lock()
 		s.emits = append(s.emits, p)
 		s.mu.Unlock()
+	}))
+	// the outbound hook runs inside Write, between the decision that the write is a request and the
+	// hand-over to the readers; in a `writeh` step it closes the planned readers exactly there
+	s.w.AddOutboundHook(packet.HookFunc(func(p *packet.Packet) {
+		s.mu.Lock()
+		s.shown++
+		plan := s.hookPlan
+		s.mu.Unlock()
+		for _, r := range plan {
+			s.rs[r].Close()
+		}
 	}))
 	for i := 0; i < n; i++ {
 		i := i
@@ -316,7 +345,7 @@ func tf(b bool) string {
 // canonical responses emitted during the step.
 func (s *sim) exec(o op) (out string, emitted []string, panicked bool) {
 	s.mu.Lock()
-	s.emits, s.delivP, s.delivR, s.spawn = nil, nil, nil, 0
+	s.emits, s.delivP, s.delivR, s.spawn, s.shown = nil, nil, nil, 0, 0
 	s.mu.Unlock()
 	ret := ""
 	pmsg := lib.Safe(func() {
@@ -327,6 +356,31 @@ func (s *sim) exec(o op) (out string, emitted []string, panicked bool) {
 			ret = tf(s.w.Unlink(s.rs[o.r]))
 		case "write":
 			ret = "n" + strconv.Itoa(s.w.Write(packet.New(types.NewInt64(int64(o.k)))))
+		case "writeh":
+			// the writer's outbound hook – which runs inside Write, after it has decided that the write is a
+			// request and before it asks the readers – closes the readers o.cs
+			s.mu.Lock()
+			s.hookPlan = o.cs
+			s.mu.Unlock()
+			ret = "n" + strconv.Itoa(s.w.Write(packet.New(types.NewInt64(int64(o.k)))))
+			s.mu.Lock()
+			s.hookPlan = nil
+			s.mu.Unlock()
+			s.mu.Lock()
+			n := s.spawn
+			s.mu.Unlock()
+			for i := 0; i < n; i++ {
+				select {
+				case g := <-s.parkCh:
+					ps := append(s.parked[g.rid], g)
+					sort.SliceStable(ps, func(i, j int) bool { return ps[i].write < ps[j].write })
+					s.parked[g.rid] = ps
+				case <-time.After(wait):
+					s.timedOut = true
+					s.fail("%s: only %d of %d goroutines spawned by the hook's closes reached (*Writer).receive", o.line(), i, n)
+					return
+				}
+			}
 		case "ans":
 			s.mainBusy.Store(true)
 			defer s.mainBusy.Store(false)
@@ -445,6 +499,11 @@ func (s *sim) exec(o op) (out string, emitted []string, panicked bool) {
 		emitted = append(emitted, c)
 		b.WriteString(" | " + c)
 	}
+	if o.kind == "writeh" {
+		s.mu.Lock()
+		fmt.Fprintf(&b, " h%d s%d", s.shown, s.spawn)
+		s.mu.Unlock()
+	}
 	// the same packets, in the same order, must come out of Receive()
 	for i, p := range emits {
 		select {
@@ -486,15 +545,16 @@ type refMsg struct {
 }
 
 type ref struct {
-	linked  []int
-	closed  [maxReaders]bool
-	owed    [maxReaders][]int    // write ids reader r accepted and has not answered (or, closed: drop notices in flight)
-	flight  [maxReaders][]refMsg // answers on their way to the writer: which write they answer, and with what
-	rows    []*refRow
-	done    bool
-	nextW   int
-	accepts int
-	relink  bool // the history re-linked an open reader that still had unanswered requests
+	linked               []int
+	closed               [maxReaders]bool
+	owed                 [maxReaders][]int    // write ids reader r accepted and has not answered (or, closed: drop notices in flight)
+	flight               [maxReaders][]refMsg // answers on their way to the writer: which write they answer, and with what
+	rows                 []*refRow
+	done                 bool
+	nextW                int
+	accepts              int
+	relink               bool // the history re-linked an open reader that still had unanswered requests
+	wantShown, wantSpawn int  // writeh: calls of the outbound hook / goroutines spawned by its closes
 }
 
 func (x *ref) isLinked(r int) bool {
@@ -613,6 +673,29 @@ func (x *ref) apply(o op) (expectRet string, expect []string) {
 			delete(row.cell, o.r)
 		}
 		return "t", x.flush()
+	case "writeh":
+		// Is the write a request at all? (writer open, some linked reader open.) If not it reports 0 and
+		// nothing happens – the hook is not even shown the packet, no reader closes.
+		open := 0
+		for _, r := range x.linked {
+			if !x.closed[r] {
+				open++
+			}
+		}
+		if x.done || open == 0 {
+			x.wantShown, x.wantSpawn = 0, 0
+			return "n0", nil
+		}
+		// the readers close inside the write (their queued requests become drop notices), then the write
+		// reaches the readers that are still open; if none is, it reports 0 and leaves nothing behind
+		x.wantShown, x.wantSpawn = 1, 0
+		for _, r := range o.cs {
+			if !x.closed[r] {
+				x.closed[r] = true
+				x.wantSpawn += len(x.owed[r])
+			}
+		}
+		return x.apply(op{kind: "write", k: o.k})
 	case "write":
 		if x.done {
 			return "n0", nil
@@ -742,6 +825,11 @@ func runHistory(n int, next func(x *ref, s *sim, i int) (op, bool)) (res result)
 		if wantRet != "" && ret != wantRet {
 			oracleFail(cls, fmt.Sprintf("step %d (%s) reported %s; by the write log it must report %s", i+1, o.line(), ret, wantRet))
 		}
+		if o.kind == "writeh" {
+			if hs := fmt.Sprintf("h%d s%d", x.wantShown, x.wantSpawn); !strings.HasSuffix(out, " "+hs) {
+				oracleFail(cls, fmt.Sprintf("step %d (%s) gave %q; the outbound hook must be called / its closes must spawn %s", i+1, o.line(), out, hs))
+			}
+		}
 		if strings.Join(emitted, " ") != strings.Join(want, " ") {
 			oracleFail(cls, fmt.Sprintf("step %d (%s): responses [%s]; by the write log (count, order, join of the answers given for each write) they must be [%s]",
 				i+1, o.line(), strings.Join(emitted, " "), strings.Join(want, " ")))
@@ -833,7 +921,30 @@ func (g *gen) next(x *ref, s *sim, i int) (op, bool) {
 		}
 	}
 	for try := 0; try < 20; try++ {
-		switch g.r.Weighted([]int{3, 2, 6, 2 + 2*(3-g.lagging), 1, 3, 1, 3, 3}) {
+		switch g.r.Weighted([]int{3, 2, 6, 2 + 2*(3-g.lagging), 1, 3, 1, 3, 3, 3}) {
+		case 9:
+			// a write inside which readers close (outbound hook): all open linked readers (the write then
+			// reports 0 although it was a request), one of them, a reader that is not linked / already
+			// closed, or none (the hook does nothing)
+			g.ctr++
+			o := op{kind: "writeh", k: g.ctr}
+			var open []int
+			for _, r := range x.linked {
+				if !x.closed[r] {
+					open = append(open, r)
+				}
+			}
+			switch g.r.Intn(5) {
+			case 0, 1:
+				o.cs = append(o.cs, open...)
+			case 2:
+				if len(open) > 0 {
+					o.cs = []int{open[g.r.Intn(len(open))]}
+				}
+			case 3:
+				o.cs = []int{g.r.Intn(g.n)}
+			}
+			return o, true
 		case 7:
 			r := g.r.Intn(g.n)
 			if (x.closed[r] || len(x.owed[r]) == 0) && g.r.Chance(5, 6) {
@@ -905,6 +1016,7 @@ func Run(c *lib.Ctx) {
 	c.Assumptions = []string{
 		"every public method of Writer/Reader is one atomic step (they run under the object's mutex); the harness drives them from one goroutine",
 		"the goroutines spawned by Reader.Close run (*Writer).receive in an arbitrary order; all carry the same packet and reader, so the model keeps a count and the harness releases them one per `drop` step through the verif yield hook",
+		"Write is not atomic with respect to the readers: Reader.Close does not take the writer's lock, so a reader can close between Write's accepting() and its Reader.write; the harness places the close exactly there with an outbound hook of the writer (`writeh v r…`), the model runs the closes as closeR steps between the decision that the write is a request and the row-building loop; a concurrent Reader.Close that falls into the same window without a hook takes the same path through Write",
 		"payloads are opaque to Join (only error / None / other is inspected): answers are int64 ids, errors are identified by their message, errors.Join by the newline-separated messages",
 		"responses are observed where they are pushed into the writer's pump (inbound hook) and re-read from Receive() after every step; the dropped responses pushed by Writer.Close itself can be discarded by the pump (known finding close-discards-buffered, DESIGN.md §7 row 7; the closed channel stands for them, see C03): those that do not arrive are counted and attributed to the finding, those that do are checked",
 	}
@@ -1056,6 +1168,35 @@ func Run(c *lib.Ctx) {
 		}
 		rec2()
 		c.Extra["exhaustive_window"] = fmt.Sprintf("all %d histories `link 0 · x` with |x| ≤ %d over 1 reader and the 9-symbol alphabet with pop/deliver", count2, k)
+
+		// readers closing INSIDE a write: every history `link 0 · x`, |x| ≤ 4, over two readers with writes whose
+		// outbound hook closes reader 0, reader 1, both or none
+		alpha3 := []op{{kind: "link", r: 1}, {kind: "write"}, {kind: "writeh"}, {kind: "writeh", cs: []int{0}}, {kind: "writeh", cs: []int{1}},
+			{kind: "writeh", cs: []int{0, 1}}, {kind: "ans", r: 0, ak: 'v'}, {kind: "ans", r: 1, ak: 'v'}, {kind: "closer", r: 0},
+			{kind: "drop", r: 0}, {kind: "unlink", r: 0}}
+		idx = idx[:0]
+		count3 := 0
+		var rec3 func()
+		rec3 = func() {
+			ops := []op{{kind: "link", r: 0}}
+			for j, a := range idx {
+				o := alpha3[a]
+				o.k = j + 1
+				ops = append(ops, o)
+			}
+			count3++
+			record(runHistory(2, fixed(ops)), "exhaustive (closes inside a write)")
+			if len(idx) == 4 {
+				return
+			}
+			for a := range alpha3 {
+				idx = append(idx, a)
+				rec3()
+				idx = idx[:len(idx)-1]
+			}
+		}
+		rec3()
+		c.Extra["exhaustive_write_window"] = fmt.Sprintf("all %d histories `link 0 · x` with |x| ≤ 4 over 2 readers and the 11-symbol alphabet with writes inside which readers close", count3)
 	}
 	c.Extra["close_discards"] = fmt.Sprintf("%d responses pushed by Writer.Close were not delivered by Receive() in %d histories (known finding close-discards-buffered: the pump drops its buffer when `in` closes); %d responses pushed by Close did arrive and were checked", closeLost, closeCases, closeChecked)
 
